@@ -1043,6 +1043,15 @@ pub mod extend_range {
     };
 }
 
+// The glue of the beatree update (`ops::update`, `leaf_stage::run` / `branch_stage::run` outside the node updaters): the
+// real `enforce_first_leaf_separator` / `filter_*_changeset` on caller-supplied lists and the real `ops::update` end to
+// end on a caller-supplied tree, with a recorder of the leaf changeset and of the pages either stage releases.
+pub mod stage_glue {
+    pub use crate::beatree::ops::update_verif::{
+        enforce_first, filter_branch, filter_leaves, Change, StageRecord, TreeDump, UpdateOut, UpdateSim,
+    };
+}
+
 // The open path (`Nomt::open`, `Store::open`, `compute_root_node`, `Meta`, `ht_file`): the manifest code and
 // `ht_file::open` on caller-supplied bytes / files, the parameters an opened store runs with, and the inputs and the
 // output of the real `compute_root_node` on an opened handle.
